@@ -16,6 +16,10 @@ import (
 	"verifsim/models/keyoracle"
 )
 
+// internalBranch is BIP44's change branch. Deliberately not taken from the
+// package under test.
+const internalBranch uint32 = 1
+
 // Bounds (DESIGN §6 C03 B:).
 const (
 	maxIndex        = 300 // highest chained index a run creates
@@ -142,7 +146,7 @@ func (s *scopeM) addrTypeFor(a *acctM, branch uint32) waddrmgr.AddressType {
 	if a != nil && a.HasOvr {
 		ext, in = a.OvrExt, a.OvrInt
 	}
-	if branch == waddrmgr.InternalBranch {
+	if branch == internalBranch {
 		return waddrmgr.AddressType(in)
 	}
 	return waddrmgr.AddressType(ext)
